@@ -115,6 +115,16 @@ def run(ctx: Ctx):
     ctx.check(bool(seg is not None and floats), "R-C18-1", r, ad, "times are parsed with float() and passed unchanged to Segment", key="reader-times")
     ctx.check(kwarg(rc, "delimiter") is not None and norm(kwarg(rc, "delimiter")) == "delimiter" and "delimiter" in r.params, "R-C18-1", r, rc,
               "delimiter parameter reaches csv.reader", bad_detail="from_csv's delimiter does not reach csv.reader", key="reader-delim")
+    # dialect agreement: every formatting parameter of the csv module must be the same on both sides
+    DIALECT = ("delimiter", "quotechar", "escapechar", "doublequote", "skipinitialspace", "quoting", "strict", "dialect")
+    rk = {k.arg: norm(k.value) for k in rc.keywords if k.arg in DIALECT}
+    wk = {k.arg: norm(k.value) for k in wc.keywords if k.arg in DIALECT}
+    pos_r = [norm(a) for a in rc.args[1:]]
+    pos_w = [norm(a) for a in wc.args[1:]]
+    ctx.check(rk == wk and pos_r == pos_w, "R-C18-1", r, rc, f"csv.reader and csv.writer use the same dialect parameters ({rk or 'defaults'})",
+              bad_detail=f"csv dialect differs between reader {rk} {pos_r} and writer {wk} {pos_w}: what to_csv writes is not parsed back the same way "
+                         f"(e.g. skipinitialspace strips the leading blanks the writer leaves unquoted; a different quotechar/escapechar/doublequote "
+                         f"misreads quoted fields)", key="dialect")
     ctx.check(_newline_ok(_open_of(r, rc.args[0])), "R-C18-2", r, _open_of(r, rc.args[0]) or rc, "input file opened with newline=''",
               bad_detail="from_csv opens the file without newline='': universal-newline translation turns a quoted '\\r' or '\\r\\n' inside a label into '\\n'",
               key="reader-newline")
